@@ -565,7 +565,9 @@ class Ctx:
         self.lines.append(self.indent + s)
 
 
-INT_MAX = {"usize::MAX": 2 ** 64 - 1, "u64::MAX": 2 ** 64 - 1, "u32::MAX": 2 ** 32 - 1, "u16::MAX": 65535, "u8::MAX": 255}
+INT_MAX = {"usize::MAX": 2 ** 64 - 1, "u64::MAX": 2 ** 64 - 1, "u32::MAX": 2 ** 32 - 1, "u16::MAX": 65535, "u8::MAX": 255,
+           "usize::BITS": 64, "u64::BITS": 64, "u32::BITS": 32, "u16::BITS": 16, "u8::BITS": 8}
+CAST_BITS = {"u8": 8, "u16": 16, "u32": 32, "u64": 64, "usize": 64}
 
 
 def in_scope(cx, entry, f):
@@ -599,7 +601,11 @@ def const_eval(e, cx):
             return None
         return min(a, b) if e[1][1] == "min" else max(a, b)
     if k == "cast":
-        return const_eval(e[1], cx)
+        v = const_eval(e[1], cx)
+        t = e[2] if len(e) > 2 and isinstance(e[2], str) else None
+        if v is not None and t in CAST_BITS and v >= 0:
+            return v % (1 << CAST_BITS[t])        # a narrowing `as` truncates
+        return v
     if k == "bin":
         a, b = const_eval(e[2], cx), const_eval(e[3], cx)
         if a is None or b is None:
@@ -1848,6 +1854,37 @@ def k_pwhash(repo):
         out += "def %s_guards : List (Nat × Nat × String) := [%s]\n\n" % (fn, ", ".join('(%d, %d, "%s")' % (g[0], g[1], g[2]) for g in guards))
         out += "def %s_validates_before_convert : Bool := %s\n\n" % (fn, "true" if guards and all(g[3] < ic for g in guards) else "false")
     asrc = strip_tests(open(os.path.join(repo, "src/argon2.rs")).read())
+    # the parameter ranges Argon2Context::new validates (64-bit target: size_of::<usize>() = 8), constants resolved inside argon2.rs
+    asub = re.sub(r"(std\s*::\s*)?mem\s*::\s*size_of\s*::\s*<\s*usize\s*>\s*\(\s*\)", "8", asrc)
+    aconsts = {}
+
+    def aresolve(n, depth=0):
+        if n in aconsts or n in INT_MAX or n in ("min", "max"):
+            return
+        if depth > 8:
+            fail("argon2 constant %s: reference chain too deep" % n)
+        ty, val = find_const(asub, n)
+        e = parse_expr(val)
+        for r in sorted(set(re.findall(r"\b[A-Z][A-Z0-9_]{2,}\b", val))):
+            aresolve(r, depth + 1)
+        v = const_eval(e, Ctx({}, aconsts))
+        if v is None:
+            fail("argon2 constant %s is not a literal expression" % n)
+        aconsts[n] = v
+    vpos = asub.find("// validate the inputs")
+    vend = asub.find("Ok(Self", vpos)
+    if vpos < 0 or vend < 0:
+        fail("argon2: the validation block of Argon2Context::new was not found")
+    aguards = []
+    for m in re.finditer(r"validate!\s*\(", asub[vpos:vend]):
+        pz = Parser(lex(asub[vpos + m.end() - 1:vend]))
+        pz.expect("(")
+        a = pz.args()
+        if len(a) != 4 or a[3][0] != "str" or a[0][0] != "var" or a[1][0] != "var":
+            fail("argon2: validate! shape")
+        aresolve(a[0][1]); aresolve(a[1][1])
+        aguards.append((aconsts[a[0][1]], aconsts[a[1][1]], a[3][1].strip('"')))
+    out += "def argon2_validate_guards : List (Nat × Nat × String) := [%s]\n\n" % ", ".join('(%d, %d, "%s")' % g for g in aguards)
     sp, _ = const_table(asrc, "ARGON2_SYNC_POINTS")
     out += translate_region(asrc, "argon2_hash", {}, {"ARGON2_SYNC_POINTS": sp}, start="let memory_blocks = if", stop="let context", lean_name="memory_geometry",
                             params=[("m_cost", "u32"), ("parallelism", "u32")], pre={}, rename={}, outputs=["memory_blocks", "segment_length"]) + "\n"
